@@ -773,6 +773,52 @@ func genMain(args []string) {
 		g.vars = []string{"v", "w"}
 	}
 	for i := 0; i < *n; i++ {
+		if *prof == "clock" {
+			b, _ := json.Marshal(M{"id": *start + i, "fam": *fam, "mode": "date", "flags": M{"fn": "clock", "variant": i % 4}})
+			w.Write(b)
+			w.WriteByte('\n')
+			continue
+		}
+		if *prof == "dates" {
+			// sweep over the days 1000-01-01 .. 9999-12-31: n cases spread evenly (every day when n is large enough)
+			const first, last = -354285, 2932896
+			span := last - first + 1
+			day := first + int(int64(i)*int64(span)/int64(*n))
+			msod := []int{0, 43200000, 45296789, 86399999, 3600000, 82800000}[i%6]
+			if i%7 == 3 {
+				msod = g.r.Intn(86400000)
+			}
+			fl := M{"day": day, "msod": msod}
+			switch i % 4 {
+			case 0:
+				fl["fn"] = "from"
+				fl["pic"] = cps("[Y0001]-[M01]-[D01] [FNn] [d] [W] [h]:[m01]:[s01] [P] [MNn]")
+			case 1:
+				fl["fn"] = "rt"
+				off := (g.r.Intn(113) - 56) * 15
+				sign := "+"
+				if off < 0 {
+					sign, off = "-", -off
+				}
+				fl["tz"] = cps(fmt.Sprintf("%s%02d%02d", sign, off/60, off%60))
+			case 2:
+				fl["fn"] = "from"
+				off := (g.r.Intn(113) - 56) * 15
+				sign := "+"
+				if off < 0 {
+					sign, off = "-", -off
+				}
+				fl["tz"] = cps(fmt.Sprintf("%s%02d%02d", sign, off/60, off%60))
+			default:
+				fl["fn"] = "from"
+				fl["pic"] = cps("[D1o] [MNn,3-3] [Y,2-2] [H01][m][s].[f001] [Z0101] [FN,*-3]")
+				fl["tz"] = cps(g.pick("+0000", "-0800", "+0530", "-0030", "+1400"))
+			}
+			b, _ := json.Marshal(M{"id": *start + i, "fam": *fam, "mode": "date", "flags": fl})
+			w.Write(b)
+			w.WriteByte('\n')
+			continue
+		}
 		if *prof == "jsontext" {
 			txt := g.jsonText(g.jsonDoc(3), 0)
 			if g.chance(0.15) && len(txt) > 0 { // a malformed neighbour
